@@ -122,7 +122,20 @@ Fixpoint number_parts (k : N) (l : list part) : list part :=
   | p :: l' => mkPart k (p_desc p) (p_col p) (p_expr p) :: number_parts (k + 1) l'
   end.
 
+(** the parts in KEY order: inspect.columns sorts them by the [pk] field of table_xinfo (fix "sqlite
+    inspection orders the parts of a composite primary key by their position in the key"); before it they
+    came in column order ([inspect_pk_old], kept for the theorem about the old code) *)
 Definition inspect_pk (t : table) : option index :=
+  match t_pk t with
+  | None => None
+  | Some pk =>
+      let names := match part_col_names (i_parts pk) with Some l => l | None => [] end in
+      let found := flat_map (fun n => match find_col n (t_cols t) with Some c => [c_name c] | None => [] end) names in
+      Some (mkIndex PRIMARY true
+                    (number_parts 1 (map (fun n => mkPart 0 false (Some n) None) found))
+                    None None None)
+  end.
+Definition inspect_pk_old (t : table) : option index :=
   match t_pk t with
   | None => None
   | Some pk =>
